@@ -703,6 +703,20 @@ func cpuGen(c *Ctx) {
 				}
 			}
 		}
+		// boundary accumulator values for every opcode (a shortcut keyed on A = 00 or FF must still perform its accesses)
+		for _, o := range ops {
+			for _, a := range []int{0x00, 0xff} {
+				for _, fl := range []int{0x00, 0xf0} {
+					ob := opBytes(o.op, o.cb, rng.Intn(256), 0xd0+rng.Intn(8))
+					pre := draw(rng, ob, func() []int {
+						s := regionRegs(rng, 0xd000, 0xdd00)
+						s[0], s[1] = a, fl
+						return s
+					})
+					e.add(rig.unit(pre, ob, place(rng, pre, ob)))
+				}
+			}
+		}
 		lows := []int{0x00, 0x01, 0xfe, 0xff}
 		for _, o := range ops {
 			for _, lo := range lows {
